@@ -37,7 +37,7 @@ TECHNIQUE = "validity oracle (sub-multiset / membership / subsequence / reproduc
 RULE = (
     "enum (EXHAUSTIVE): populations [0,1,1,2,2,2][:n] for n=0..5 (choices: n>=1) x EVERY layout of the n elements into 1..3 "
     "partitions (empty partitions included) x k=1..n+3 x split_every in {None,2} x op in {sample, choices} x seeds {0,1}; "
-    "k_zero: the same layouts with k=0; random: populations of 0..25 small ints or strings (duplicates frequent, or all "
+    "k_zero: the layouts of n=0..4 with k=0, split_every in {None,2}; random: populations of 0..25 small ints or strings (duplicates frequent, or all "
     "distinct), 1..9 partitions given as explicit sizes (zeros allowed) or from_sequence(npartitions), k=1..size+3, "
     "split_every in {None,2,3,False}; random_sample: prob in {0,.1,.3,.5,.9,1}, random_state int or random.Random, computed "
     "twice on sync, rebuilt and computed on threads.  Non-trivial: k exceeds the smallest partition size or a partition is "
@@ -223,7 +223,8 @@ def enum_k_zero(tier):
             for op in ("sample", "choices"):
                 if op == "choices" and n == 0:
                     continue
-                yield {"op": op, "data": data, "layout": {"how": "sizes", "sizes": sizes}, "k": 0, "split_every": None, "seed": 0}
+                for se in (None, 2):
+                    yield {"op": op, "data": data, "layout": {"how": "sizes", "sizes": sizes}, "k": 0, "split_every": se, "seed": 0}
 
 
 # ----------------------------------------------------------------- random
